@@ -26,9 +26,12 @@ func (s *State) clone() *State {
 	return n
 }
 
-func heapSort(key string, leaf *smt.Sort) *smt.Sort {
+func (e *Engine) heapSortOf(key string, leaf *smt.Sort) *smt.Sort {
 	if strings.HasPrefix(key, "arr:") {
 		return smt.Array(RefSort, smt.Array(IntSort, leaf))
+	}
+	if strings.HasPrefix(key, "mapP:") || strings.HasPrefix(key, "mapV:") {
+		return smt.Array(RefSort, smt.Array(e.heapIdx[key], leaf))
 	}
 	return smt.Array(RefSort, leaf)
 }
@@ -37,7 +40,7 @@ func (e *Engine) heap(st *State, key string, leaf *smt.Sort) *smt.Term {
 	if h, ok := st.Heaps[key]; ok {
 		return h
 	}
-	h := e.X.Var("H0|"+key, heapSort(key, leaf))
+	h := e.X.Var("H0|"+key, e.heapSortOf(key, leaf))
 	e.heapSorts[key] = leaf
 	return h
 }
@@ -232,6 +235,9 @@ func (e *Engine) assumeWellTyped(st *State, v Val) {
 		switch {
 		case c.Sort == RefSort && (strings.HasSuffix(c.Suffix, ".r") || strings.HasSuffix(c.Suffix, ".p")):
 			facts = append(facts, e.X.Ult(t, st.Alloc))
+		case c.Sort == TagSort && strings.HasSuffix(c.Suffix, ".t") && i+1 < len(cs) && strings.HasSuffix(cs[i+1].Suffix, ".v"):
+			// a nil interface has no payload
+			facts = append(facts, e.X.Implies(e.X.Eq(t, e.X.Const(0, 32)), e.X.Eq(v.C[i+1], e.X.Const(0, 64))))
 		}
 		if strings.HasSuffix(c.Suffix, ".l") && i >= 2 && strings.HasSuffix(cs[i-1].Suffix, ".o") {
 			off, ln := v.C[i-1], t
